@@ -439,6 +439,12 @@ impl MerkleTree {
         else { None }
     }
 
+    /// the replica holds a usable node for `index` (not blank, not being truncated away)
+    pub open spec fn present(&self, index: u64, nodes: &IntMap<Option<Node>>) -> bool {
+        if self.unflushed@.contains_key(index) { !(self.unflushed@[index].blank || (self.truncated && self.unflushed@[index].index >= 2 * self.truncate_to)) }
+        else { nodes@.contains_key(index) && nodes@[index] is Some && !nodes@[index]->Some_0.blank }
+    }
+
     /*@ fn src/tree/merkle_tree.rs MerkleTree::node
     tags: C09 C03 C04
     result: r
@@ -453,7 +459,9 @@ impl MerkleTree {
         // a node that is returned is the trusted one (never one made up from the request)
         r is Ok && r->Ok_0 is Right && r->Ok_0->Right_0 is Some ==> self.trusted(index, nodes) is Some && Node::eqv(r->Ok_0->Right_0->Some_0, self.trusted(index, nodes)->Some_0),
         // and nothing is read from disk for a node that is already known
-        r is Ok && r->Ok_0 is Left ==> self.trusted(index, nodes) is None && !self.unflushed@.contains_key(index) && !nodes@.contains_key(index)
+        r is Ok && r->Ok_0 is Left ==> self.trusted(index, nodes) is None && !self.unflushed@.contains_key(index) && !nodes@.contains_key(index),
+        // Some / None tell exactly whether the node is present
+        r is Ok && r->Ok_0 is Right ==> (r->Ok_0->Right_0 is Some) == self.present(index, nodes)
     @*/
     /*@ fn src/tree/merkle_tree.rs MerkleTree::required_node
     tags: C09 C03 C04
@@ -470,7 +478,8 @@ impl MerkleTree {
     requires:
         self.t_wf(), index < 0x4_0000_0000_0000
     ensures:
-        r is Ok && r->Ok_0 is Left ==> r->Ok_0->Left_0.store == Store::Tree && r->Ok_0->Left_0.index == 40 * index && r->Ok_0->Left_0.allow_miss
+        r is Ok && r->Ok_0 is Left ==> r->Ok_0->Left_0.store == Store::Tree && r->Ok_0->Left_0.index == 40 * index && r->Ok_0->Left_0.allow_miss,
+        r is Ok && r->Ok_0 is Right ==> (r->Ok_0->Right_0 is Some) == self.present(index, nodes)
     @*/
     /*@ fn src/tree/merkle_tree.rs MerkleTree::infos_to_nodes
     tags: C09 C03
